@@ -912,6 +912,10 @@ def check_C17(tier):
             pr = threadcheck.judge_fence(owner, m, o)
             if o['straggler'] is None or o['straggler'][:2] != ['RuntimeError', 'finished']:
                 pr.append({'what': 'a call after the close did not raise RuntimeError', 'res': o['straggler']})
+            # ... also a call the owner function itself had made before, with the same arguments
+            o2, _ = threadcheck.run_fence(owner, m, None, after=True, owner_raises=raises, warm=True)
+            if o2['straggler'] is None or o2['straggler'][:2] != ['RuntimeError', 'finished']:
+                pr.append({'what': 'a call after the close, repeating one the function had made, did not raise RuntimeError', 'res': o2['straggler']})
             if pr:
                 rep.violation('fence_seq_%s_%s_%s' % (owner, raises, m), {'property': 'C17', 'kind': 'failing-input', 'owner': owner, 'owner_raises': raises, 'method': m, 'problems': pr},
                               note='%s builder, %s after the close: %s' % (owner, m, pr[0]['what']))
